@@ -231,10 +231,14 @@ impl SpanDisplay {
     /// Constructs a new `SpanDisplay` with the given span.
     #[must_use]
     pub fn new(source_text: SourceTextRef<'_>, span: Span) -> Self {
-        #[allow(clippy::cast_possible_truncation)]
-        #[allow(clippy::cast_sign_loss)]
-        let gutter_width = std::cmp::max(
-            (span.end().page.line as f32).log10().ceil() as u8, 1);
+        // The gutter must fit the largest line number displayed, which is
+        // the number of decimal digits of the last line.
+        let mut gutter_width: u8 = 1;
+        let mut line = span.end().page.line;
+        while line >= 10 {
+            gutter_width = gutter_width.saturating_add(1);
+            line /= 10;
+        }
 
         Self {
             source_name: source_text.name().map(String::from),
